@@ -583,6 +583,22 @@ static void test_rec(void)
 									for (i = 0; i < n; ++i) for (j = i + 1; j < n; ++j) if (ip[j] < ip[i]) { int t = ip[i]; ip[i] = ip[j]; ip[j] = t; }
 									for (p = 0; p < np; ++p) { int used = 0; for (q = 0; q < nr; ++q) if (ip[q] == p) used = 1; if (!used) g[ng++] = p; }
 									run_rec_case(&fm, rs->name, mode, 1, nds[k], np, 64, nr, id, ip, ng, g);
+									/* follow-up with the same parities and a failure set that differs from the previous one
+									   only by a multiple of 32 in one index: a decoder must not carry anything over from
+									   the previous recovery (the two sets are equal modulo 32, modulo 64 for +64) */
+									if (nr >= 2) {
+										int sh;
+										for (sh = 32; sh <= 64; sh += 32) {
+											int id2[6], t, okk = 1;
+											memcpy(id2, id, sizeof(id2));
+											t = (int)rnd(nr);
+											if (id2[t] + sh < nds[k]) id2[t] += sh; else if (id2[t] - sh >= 0) id2[t] -= sh; else okk = 0;
+											for (i = 0; i < nr && okk; ++i) for (j = i + 1; j < nr; ++j) if (id2[i] == id2[j]) okk = 0;
+											if (!okk) continue;
+											for (i = 0; i < nr; ++i) for (j = i + 1; j < nr; ++j) if (id2[j] < id2[i]) { int tt = id2[i]; id2[i] = id2[j]; id2[j] = tt; }
+											run_rec_case(&fm, rs->name, mode, 1, nds[k], np, 64, nr, id2, ip, ng, g);
+										}
+									}
 								}
 							}
 			}
